@@ -93,7 +93,7 @@ CLAIMED["C03"] = (
 CLAIMED["C04"] = (
     "exploration",
     "bounded-exhaustive enumeration of messages x capability pairs through the real encoder, independent frame walker + peer-side decode as oracle",
-    "OPEN (every capability kind, 0-19 families, capability lists crossing 255 bytes), UPDATE reach/unreach/EoR for all 19 families with entry counts 0,1,2,k-1,k,k+1,2k,3k+1 around the measured frame capacity k, min/max NLRI sizes, attribute-block size ladder up to the frame limit, every NOTIFICATION variant, KEEPALIVE, ROUTE-REFRESH; capability pairs: 16 pairs reaching every negotiated outcome everywhere, all 1024 pairs on 4 families (thorough). Oracle: every frame within the negotiated maximum with mutually consistent length fields (independent walker), Ok(count) = frames seen, multiset of (prefix, path-id) / next hop / attributes decoded by the peer's codec equals the input modulo the documented canonicalisation, decode(encode(decode)) fixed point; dev and release profiles.",
+    "OPEN (every capability kind, 0-19 families, capability lists crossing 255 bytes), UPDATE reach/unreach/EoR for all 19 families with entry counts 0,1,2,k-1,k,k+1,2k,3k+1 around the measured frame capacity k, min/max NLRI sizes, attribute-block size ladder up to the frame limit, every NOTIFICATION variant, KEEPALIVE, ROUTE-REFRESH; capability pairs: 32 pairs reaching every negotiated outcome (incl. add-path send-only / receive-only) everywhere, all 1024 pairs on 4 families (thorough). Oracle: every frame within the negotiated maximum with mutually consistent length fields (independent walker), Ok(count) = frames seen, multiset of (prefix, path-id) / next hop / attributes decoded by the peer's codec equals the input modulo the documented canonicalisation, decode(encode(decode)) fixed point; dev and release profiles.",
     "NLRI content of flowspec / LS / MUP / SR-policy is read with the repository's decoder (framing and attributes are independent for all families). Three capability-length signatures (RFC 9072 needed) are known findings. Built by helper sub-agents (generators + oracle).",
     "DESIGN.md §5 C04",
 )
